@@ -62,7 +62,7 @@ def _write_meta(name, res):
     confirm = ""
     cl = os.path.join(d, "confirm.log")
     if os.path.exists(cl):
-        confirm = open(cl).read().strip().splitlines()[-1]
+        confirm = open(cl, errors="replace").read().strip().splitlines()[-1]
     meta = {
         "seed": name,
         "breaks_property": target,
